@@ -29,6 +29,7 @@ class _Only:
     def __init__(self, ctx, src, dst):
         self._ctx, self._src, self._dst = ctx, src, dst
         self.prog = ctx.prog
+        self.repo = ctx.repo
 
     def rule(self, *a):
         pass
